@@ -129,7 +129,8 @@ def cases(tier):
     out.append(_case('nullargs', 'NULLARGS', {'VF_N': 2, 'VF_T': 1, 'VF_SZ': 2}, 10,
                      ['qstrtrim', 'qstrtrim_head', 'qstrtrim_tail', 'qstrunchar', 'qstrreplace', 'qstrcpy', 'qstrncpy', 'qstrgets', 'qstrrev', 'qstrupper', 'qstrlower', 'qmemdup'],
                      'NULL arguments are refused without touching anything'))
-    return out
+    from ..fam import strf
+    return out + strf.cases(tier, 'C19')
 
 
 def meta(tier):
@@ -141,7 +142,7 @@ def meta(tier):
                    'in-place replace: capacity exactly max(source, result)+1 per replacement count; every byte symbolic over all values (no NUL inside strings)')
                   % (b['n'], b['map_n'], b['t'], b['w'], b['ovl'], b['ovl']),
         'outside': ['strings longer than the bound',
-                    'qstrdupf, qstrcatf (printf formatting), qstr_comma_number (snprintf), qstrunique (time/pid/rand/MD5), qstr_conv_encoding (iconv): formatting/environment, not in the statement',
+                    'qstrdupf: only the buffer management around vsnprintf with the format "%s" (strf queries); qstrcatf (printf formatting), qstr_comma_number (snprintf), qstrunique (time/pid/rand/MD5), qstr_conv_encoding (iconv): formatting/environment, not in the statement',
                     'qstrtest, qstr_is_email, qstr_is_ip4addr: not listed by the statement; their smallest accepted inputs (6-7 characters, ctype/atoi through function pointers) exceed the length bound',
                     'qstrreplace with an empty search token (the statement quantifies over non-empty tokens)',
                     'qstrgets with size 0; qstrtok with an offset outside [0, strlen] (the offset protocol only produces offsets inside)',
